@@ -86,6 +86,7 @@ static uint32_t id_class(vp_rng_t* r, uint32_t k)
     return (uint32_t)vp_rng_next(r) & 0x7ff;
 }
 
+#ifndef VP_NO_MAIN
 int main(void)
 {
     vp_watchdog_start();       /* these monitors call the library continuously: a long silence is a spinning call */
@@ -124,7 +125,8 @@ int main(void)
                         uint8_t* p; uint8_t* s; uint8_t* heap = 0; uint8_t* src;
                         uint8_t shadow_local[2100];
                         uint32_t total = H + L + pad;
-                        src = vp_heap(L);                       /* exact-extent source: over-reads trap under ASan */
+                        uint32_t skk = (k & 1) ? ((g_place + H) & 7u) : ((k >> 1) & 7u);      /* start residue of the source: the payload's own in half of the cases */
+                        src = vp_heap(L + skk) + skk;                       /* exact-extent source: over-reads trap under ASan */
                         memcpy(src, payload_buf, L);
                         if (placement == 0) {
                             vp_arena_fill(&a, &c->rng);
@@ -220,7 +222,7 @@ int main(void)
                                 }
                             }
                         }
-                        vp_heap_free(src);
+                        vp_heap_free(src - skk);
                         if (heap) vp_heap_free(heap);
                     }
                 }
@@ -234,3 +236,4 @@ int main(void)
     vp_finish(c, "canmon");
     return 0;
 }
+#endif
